@@ -67,15 +67,17 @@ def _alt(base):
     return {"A": "C", "C": "G", "G": "T", "T": "A"}[base]
 
 
-def _alts(pos, nalt):
-    """ALT alleles of the record at `pos`: one, or two distinct ones for a 2-ALT record"""
+def _alts(pos, nalt, indel=False):
+    """ALT alleles of the record at `pos`: one, or two distinct ones for a 2-ALT record; an insertion for `indel`"""
     base = REFSEQ[pos]
+    if indel:
+        return [base + "TG"]
     return [_alt(base)] + ([{"A": "G", "C": "T", "G": "A", "T": "C"}[base]] if nalt == 2 else [])
 
 
-def _variant(vcfmod, pos, nalt):
+def _variant(vcfmod, pos, nalt, indel=False):
     if nalt == 1:
-        return vcfmod.BiallelicVcfVariant(pos, REFSEQ[pos], _alts(pos, 1)[0])
+        return vcfmod.BiallelicVcfVariant(pos, REFSEQ[pos], _alts(pos, 1, indel)[0])
     return vcfmod.MultiallelicVcfVariant(pos, REFSEQ[pos], _alts(pos, nalt))
 
 
@@ -90,7 +92,7 @@ def _table(core, vcfmod, rows, mav):
         if nalt > 1 and not mav:
             continue
         ph = vcfmod.VariantCallPhase(block_id=r["ps"], phase=tuple(r["gt"]), quality=None) if r["phased"] else None
-        vt.add_variant(_variant(vcfmod, pos, nalt), [core.Genotype(sorted(r["gt"]))], [ph], [None], [None])
+        vt.add_variant(_variant(vcfmod, pos, nalt, r.get("indel", False)), [core.Genotype(sorted(r["gt"]))], [ph], [None], [None])
     return vt
 
 
@@ -101,7 +103,7 @@ def _write_vcf(path, rows):
         f.write("#CHROM\tPOS\tID\tREF\tALT\tQUAL\tFILTER\tINFO\tFORMAT\t%s\n" % SAMPLE)
         for pos in sorted(rows):
             r = rows[pos]
-            alts = ",".join(_alts(pos, r.get("nalt", 1)))
+            alts = ",".join(_alts(pos, r.get("nalt", 1), r.get("indel", False)))
             if r["phased"]:
                 f.write("%s\t%d\t.\t%s\t%s\t.\tPASS\t.\tGT:PS\t%d|%d:%d\n" % (CHROM, pos + 1, REFSEQ[pos], alts, r["gt"][0], r["gt"][1], r["ps"]))
             else:
@@ -171,8 +173,9 @@ class _WriterModel:
         self.result = out
 
 
-def _sym_stage2(sub, mod, core, vcfmod, rows, reads):
+def _sym_stage2(sub, mod, core, vcfmod, rows, reads, opts=None):
     hm = sub.hm
+    opts = opts or {}
 
     class _Vcf(list):
         samples = [SAMPLE]
@@ -201,13 +204,14 @@ def _sym_stage2(sub, mod, core, vcfmod, rows, reads):
     mod.PhasedVcfWriter = writer
     mod.IndexedFasta = lambda path: _Fasta({CHROM: REFSEQ})
     with contextlib.redirect_stdout(io.StringIO()):
-        mod.run_haplotagphase(variant_file="in.vcf", alignment_file="tagged.bam", output="out.vcf", reference="ref.fa", write_command_line_header=False)
+        mod.run_haplotagphase(variant_file="in.vcf", alignment_file="tagged.bam", output="out.vcf", reference="ref.fa", write_command_line_header=False, **opts)
     return wm.result
 
 
-def _real_stage2(sub, mod, core, vcfmod, rows, reads):
+def _real_stage2(sub, mod, core, vcfmod, rows, reads, opts=None):
     import pysam
 
+    opts = opts or {}
     hm = sub.hm
     d = tempfile.mkdtemp(prefix="c17-", dir="/var/tmp")
     try:
@@ -221,7 +225,7 @@ def _real_stage2(sub, mod, core, vcfmod, rows, reads):
         mod.PhasedInputReader = lambda *a, **k: hm.Reader(core, {SAMPLE: reads})
         try:
             with contextlib.redirect_stdout(io.StringIO()), contextlib.redirect_stderr(io.StringIO()):
-                mod.run_haplotagphase(variant_file=vin, alignment_file="tagged.bam", output=vout, reference=fa, write_command_line_header=False)
+                mod.run_haplotagphase(variant_file=vin, alignment_file="tagged.bam", output=vout, reference=fa, write_command_line_header=False, **opts)
         finally:
             mod.PhasedInputReader = saved
         out = {}
@@ -235,7 +239,7 @@ def _real_stage2(sub, mod, core, vcfmod, rows, reads):
         shutil.rmtree(d, ignore_errors=True)
 
 
-_PHASES = {"b": [(0, 1), (1, 0)], "m": [(0, 1), (1, 0), (0, 2), (2, 0), (1, 2), (2, 1)]}
+_PHASES = {"b": [(0, 1), (1, 0)], "i": [(0, 1), (1, 0)], "m": [(0, 1), (1, 0), (0, 2), (2, 0), (1, 2), (2, 1)]}
 
 
 def _read_options(V, psidx):
@@ -325,6 +329,8 @@ class Chain(SubCheck):
         multi = "kinds" in shape  # chain_multiallelic: 'b' = one ALT allele, 'm' = two ALT alleles
         kinds = shape["kinds"] if multi else "b" * V
         nalt = [2 if k == "m" else 1 for k in kinds]
+        indel = [k == "i" for k in kinds]  # chain_options: 'i' = insertion record
+        opts = self.options(e, shape)
         positions = [10 * (i + 1) + i for i in range(V)]  # 0-based
         block = {ps: min(positions[i] for i in range(V) if psidx[i] == ps) + 1 for ps in set(psidx)}
         phases = [list(e.choice("phase%d" % i, _PHASES[kinds[i]])) for i in range(V)]
@@ -338,9 +344,9 @@ class Chain(SubCheck):
         orig = {}
         for i, pos in enumerate(positions):
             if i == hom:
-                orig[pos] = dict(gt=(1, 1), phased=False, ps=None, nalt=nalt[i])
+                orig[pos] = dict(gt=(1, 1), phased=False, ps=None, nalt=nalt[i], indel=indel[i])
             else:
-                orig[pos] = dict(gt=tuple(phases[i]), phased=True, ps=block[psidx[i]], nalt=nalt[i])
+                orig[pos] = dict(gt=tuple(phases[i]), phased=True, ps=block[psidx[i]], nalt=nalt[i], indel=indel[i])
         if multi:
             vt = impl.stage1_table(self, impl.core, impl.vcf, orig)
             e.out("stage1_table", [(v.position, list(ph.phase), ph.block_id) if ph is not None else (v.position, None, None) for v, ph in zip(vt.variants, vt.phases_of(SAMPLE))])
@@ -360,7 +366,7 @@ class Chain(SubCheck):
             impl.haplotag.attempt_add_phase_information(aln, r2h, bx, 50000, True)
             tags.append(dict(aln.get_tags()))
         e.out("stage1_tags", [sorted(t.items()) for t in tags])
-        ctx1 = lambda: dict(positions=positions, alt_alleles=nalt, phase_set_of_variant=[block[p] for p in psidx], phases=phases, homozygous=hom, read_haplotypes=hap,
+        ctx1 = lambda: dict(options=opts, insertion_records=[positions[i] for i in range(V) if indel[i]], positions=positions, alt_alleles=nalt, phase_set_of_variant=[block[p] for p in psidx], phases=phases, homozygous=hom, read_haplotypes=hap,
                             reads=[[(p, a, e.value(q)) for p, a, q in rv] for rv in rvars], stage1_tags=e.value([sorted(t.items()) for t in tags]))
         for r, cov in enumerate(rcov):
             informative = [i for i in cov if i != hom and nalt[i] == 1]
@@ -380,13 +386,13 @@ class Chain(SubCheck):
         rows = {}
         for i, pos in enumerate(positions):
             if i == hom:
-                rows[pos] = dict(gt=(1, 1), phased=False, ps=None, nalt=nalt[i])
+                rows[pos] = dict(gt=(1, 1), phased=False, ps=None, nalt=nalt[i], indel=indel[i])
             elif unph[i]:
-                rows[pos] = dict(gt=tuple(sorted(phases[i])), phased=False, ps=None, nalt=nalt[i])
+                rows[pos] = dict(gt=tuple(sorted(phases[i])), phased=False, ps=None, nalt=nalt[i], indel=indel[i])
             else:
-                rows[pos] = dict(gt=tuple(phases[i]), phased=True, ps=block[psidx[i]], nalt=nalt[i])
+                rows[pos] = dict(gt=tuple(phases[i]), phased=True, ps=block[psidx[i]], nalt=nalt[i], indel=indel[i])
         reads2 = [dict(name="r%d" % r, start=5, hp=tags[r].get("HP", -1), ps=tags[r].get("PS", -1), vars=rvars[r]) for r in range(len(rcov))]
-        result = impl.stage2(self, impl.haplotagphase, impl.core, impl.vcf, rows, reads2)
+        result = impl.stage2(self, impl.haplotagphase, impl.core, impl.vcf, rows, reads2, opts)
         e.out("stage2", sorted((p, list(v[0]), v[1], v[2]) for p, v in result.items()))
         ctx = lambda: dict(ctx1(), second_input={p: (r["gt"], r["phased"], r["ps"]) for p, r in rows.items()}, output=e.value(sorted((p, list(v[0]), v[1], v[2]) for p, v in result.items())))
         newly = []
@@ -405,16 +411,24 @@ class Chain(SubCheck):
                     e.check(covered, "a variant no read covers was phased", lambda: dict(ctx(), position=pos, alt_alleles_of_record=nalt[i]))
                     e.cover("covered unphased variant gets phased")
                     newly.append(i)
+                    if opts.get("only_indels"):
+                        e.cover("--only-indels: insertion phased" if indel[i] else "--only-indels: SNV phased")
                     if nalt[i] == 2:
                         e.cover("2-ALT variant phased by stage 2 with the original order %d|%d" % tuple(phases[i]))
                 else:
                     e.check(tuple(sorted(gt)) == tuple(sorted(phases[i])), "genotype of an unphased variant changed", lambda: dict(ctx(), position=pos, alt_alleles_of_record=nalt[i]))
-                    if multi and voted:
+                    if opts.get("only_indels") and voted and not indel[i]:
+                        e.cover("--only-indels: voted SNV left unphased")
+                    if opts and opts.get("gap_threshold") == 100 and voted:
+                        e.cover("gap threshold 100: voted variant left unphased")
+                    if multi and voted and not opts:
                         # not a claim of the statement (thresholds), so only reported through the vacuity guard: with
                         # error-free reads and default thresholds nothing should end up here
                         e.cover("voted unphased variant stays unphased")
             else:
                 e.cover("already phased variant with votes" if voted else "already phased variant without votes")
+                if opts.get("only_indels") and voted and not indel[i]:
+                    e.cover("--only-indels: already phased SNV with votes")
                 if nalt[i] == 2 and voted:
                     e.cover("already phased 2-ALT variant with votes")
                 e.check(phased and tuple(gt) == tuple(phases[i]) and ps == block[psidx[i]],
@@ -424,9 +438,13 @@ class Chain(SubCheck):
         if len({tuple(sorted(phases[i])) for i in newly if nalt[i] == 2}) > 1:
             e.cover("two 2-ALT variants with different genotypes phased in one run")
 
+    def options(self, e, shape):
+        """keyword arguments of run_haplotagphase beyond the defaults (chain_options chooses them through the solver)"""
+        return {}
+
     def classify(self, shape, v):
         info = v.get("info") or {}
-        if v["msg"].startswith("a variant that was already phased"):
+        if v["msg"].startswith("a variant that was already phased") and not (info.get("options") or {}):
             # same signature in both sub-checks: it is one defect (no vote -> the writer drops the existing phasing)
             return "chain:already phased variant altered:covered_by_a_tagged_read=%s" % info.get("covered_by_a_tagged_read")
         if "alt_alleles_of_record" in info:
@@ -502,7 +520,43 @@ class ChainMultiallelic(Chain):
                    "V = 2: every multiset of <= 3 reads; one V = 4 shape"))
 
 
-SUBCHECKS = {c.name: c for c in [Chain(), ChainMultiallelic()]}
+class ChainOptions(Chain):
+    """the same chain with the options of `whatshap haplotagphase` chosen by the solver and insertion records next to SNVs"""
+
+    name = "chain_options"
+    assumptions = [a for a in Chain.assumptions if not a.startswith("no read overlaps")] + [
+        "no read overlaps two phase sets (proviso of the statement); diploid; every record is an SNV or an insertion with one ALT allele; reference without homopolymer runs",
+        "options: --only-indels on/off, --gap-threshold in {0, 70, 100}, --cut-poly in {0, 10} (solver-chosen); none of them is mentioned by the statement, so its clauses are asserted unchanged for every choice"]
+    required_cover = ["stage 1 tags every read with its true haplotype", "stage 2 phases an unphased variant", "already phased variant with votes", "already phased variant without votes",
+                      "--only-indels: insertion phased", "--only-indels: voted SNV left unphased", "--only-indels: already phased SNV with votes", "two phase sets"]
+
+    def options(self, e, shape):
+        o = dict(only_indels=bool(e.bit("only_indels")), gap_threshold=e.choice("gap_threshold", [70, 0, 100]), cut_poly=e.choice("cut_poly", [10, 0]))
+        return o
+
+    def shapes(self, tier):
+        out = []
+        kindsets = ["bi", "ib", "ii"] if tier == "quick" else ["bi", "ib", "ii", "bbi", "bib", "ibb", "iib"]
+        for kinds in kindsets:
+            V = len(kinds)
+            for psidx in itertools.product((0, 1), repeat=V):
+                if psidx[0] != 0:
+                    continue
+                opts = _read_options(V, psidx)
+                for R in (1, 2):
+                    if V == 3 and R == 2 and tier == "quick":
+                        continue
+                    for reads in itertools.combinations_with_replacement(opts, R):
+                        out.append(dict(V=V, kinds=kinds, psidx=list(psidx), reads=[list(r) for r in reads], options=True))
+        return out
+
+    def bounds(self, tier):
+        sh = self.shapes(tier)
+        return ("%d shapes: V <= %d biallelic records, SNVs ('b') and insertions ('i') [%s], in <= 2 phase sets, R <= 2 error-free reads; symbolic: as chain (no homozygous record), plus "
+                "--only-indels, --gap-threshold in {0,70,100}, --cut-poly in {0,10}" % (len(sh), max(s["V"] for s in sh), ", ".join(sorted({s["kinds"] for s in sh}))))
+
+
+SUBCHECKS = {c.name: c for c in [Chain(), ChainMultiallelic(), ChainOptions()]}
 
 if __name__ == "__main__":
     import sys
